@@ -6,6 +6,7 @@ import Driver.Xor
 import Driver.Pipe
 import Driver.Nat
 import Driver.Addressing
+import Driver.Deadline
 
 def main (args : List String) : IO UInt32 := do
   match args with
@@ -18,4 +19,5 @@ def main (args : List String) : IO UInt32 := do
   | ["nat", mode] => Driver.runComponent (Driver.Nat.comp mode); return 0
   | ["router"] => Driver.runComponent Driver.Addressing.router; return 0
   | ["host"] => Driver.runComponent Driver.Addressing.host; return 0
+  | ["deadline"] => Driver.runComponent Driver.Deadline.comp; return 0
   | _ => IO.eprintln "usage: vdrv <component> [args]"; return 2
